@@ -19,16 +19,23 @@ LEANCHECKER = True
 RULE = ("indexed strings — exhaustive: every sequence over the alphabet {'', 'a', 'é' (2 bytes), 'xyz'} of length <= n "
         "(quick n=3, thorough n=5) x every composition of it into write_part calls (plus variants with empty parts "
         "inserted, and the single write() call) x chunk sizes 1,2,3,4,5,1<<20 x {memory, HDF5-in-BytesIO}; every case is "
-        "read through data[:], every data[a:b] with 0<=a<=b<=n (+ out-of-range ones), every data[i], indices[:], values[:], "
-        "len(), with the writeable and the read-only reader, and again after close() + open_dataset(...,'r') on the same "
-        "bytes; plus seeded random sequences (quick <=60, thorough <=2000 entries) with 1-4 byte UTF-8 characters and entry "
+        "read through data[:], every data[a:b] with 0<=a<=b<=n (+ out-of-range ones), every data[i], ~20 items with negative "
+        "indices, None / negative / out-of-range bounds, steps 2,3,-1,-2 and 0, empty results (+ random ones; each int also as "
+        "np.int64), indices[:], values[:], len(), with the writeable and the read-only reader, and again after close() + "
+        "open_dataset(...,'r') on the same bytes; readers exhaustive: fields of 0..4 (thorough 6) rows of every kind x both "
+        "backings read with EVERY slice whose start, stop are None or in [-n-2, n+2] and step in {None,1,2,3,-1,-2,-3,0} and "
+        "every int in [-n-2, n+1]; the Lean spec of Python indexing (Spec/PySlice.lean) against Python's own list indexing on "
+        "the same exhaustive scope plus random bounds up to +-2^63; plus seeded random sequences (quick <=60, thorough <=2000 entries) with 1-4 byte UTF-8 characters and entry "
         "lengths c-1,c,c+1 around the chunk size, random partitions with empty parts; histories of 2-4 write_part...complete "
         "rounds on one field with the same writer object, a new one, or after close + reopen 'r+'. Plain fields — numeric x "
         "{bool,int8..int64,uint8..uint64,float32,float64}, fixed strings, categorical (key stored and read back), "
         "timestamp: every composition of sequences of extreme values up to length 3 (thorough 4) x both backends, plus random. "
         "Non-trivial = a staging-buffer flush happened inside write_part (bytes or entries >= chunk size) or the partition "
         "has >= 2 parts or an empty part; distinct = distinct canonical case.")
-ASSUMPTIONS = ["h5py/HDF5 store and return arrays, attributes and variable-length strings faithfully, also across close/reopen "
+ASSUMPTIONS = ["Python's slice.indices / range / list indexing are as rendered in Spec/PySlice.lean (compared with Python itself on every "
+               "run, op c01_pyslice); numpy's and h5py's __getitem__ on a one-dimensional array follow them for every item they "
+               "accept (compared on every plain-field case)",
+               "h5py/HDF5 store and return arrays, attributes and variable-length strings faithfully, also across close/reopen "
                "(exercised by every HDF5 case, not proved)",
                "Python's UTF-8 codec: s.encode() / bytes.decode() are inverse on valid strings (entries are modelled as their bytes)",
                "numpy casting of ill-typed input is not modelled: parts are written with the field's own dtype",
@@ -37,17 +44,23 @@ ASSUMPTIONS = ["h5py/HDF5 store and return arrays, attributes and variable-lengt
                "hand-written Lean model validated by this differential run, not verified against the Python text"]
 TRUSTED = ["Lean 4.33 kernel", "axioms: propext, Classical.choice, Quot.sound only (audited per theorem)",
            "checks/harness/c01.py generators, canonicalisation and comparison",
-           "Lean models Exetera/Model/IndexedWriter.lean and Exetera/Model/Storage.lean mirror fields.py / data_writer.py by hand"]
+           "Lean models Exetera/Model/IndexedWriter.lean, Exetera/Model/Storage.lean and Exetera/Model/Reader.lean mirror "
+           "fields.py / data_writer.py by hand"]
 LEVEL_TEXT = ("Kernel-checked for all inputs: the indexed-string writer (write_part/complete with its two staging buffers, "
               "any chunk size >= 1, any partition, memory or HDF5 append) stores exactly the concatenated bytes and the "
               "running offsets, without an out-of-bounds buffer access; partition, chunk-size and backend independence; the "
-              "offsets invariants; both indexed readers return xs[a:b] / xs[i] for every 0<=a<=b<=n / i<n; plain fields "
-              "store the concatenation of their parts; categorical key values, the dtype of an empty read and the reopen "
-              "class dispatch. Model tied to the code by differential execution incl. close/reopen.")
-LEVEL_NOTE = ("Theorems are about the model with the four fix: patches applied (D1, D2, D32, NC01a; as-found variants kept "
-              "with Witness theorems). HDF5 persistence, the UTF-8 codec and numpy casting are assumptions, exercised but "
-              "not proved. Reader theorems cover the in-range slices/indices the property names; steps and negative indices "
-              "are outside the model.")
+              "offsets invariants; both indexed readers return xs[a:b] / xs[i] for every 0<=a<=b<=n / i<n, and — against a Lean "
+              "rendering of Python's slice.indices / range / list indexing — exactly xs[start:stop:step] for EVERY combination of "
+              "None, negative, out-of-range bounds and steps of either sign (ValueError for step 0) and xs[i] for every "
+              "-n<=i<n; plain fields store the concatenation of their parts and answer every item as numpy does on either "
+              "backing; categorical key values, the dtype of an empty read and the reopen class dispatch. Model tied to the "
+              "code by differential execution incl. close/reopen.")
+LEVEL_NOTE = ("Theorems are about the model with the six fix: patches applied (D1, D2, D32, NC01a, NC01b, NC01c; as-found variants "
+              "kept with Witness theorems and _partial theorems: the indexed readers as found are right only for non-negative, "
+              "ordered, unit-step slices and non-negative ints, an h5py dataset refuses negative steps). HDF5 persistence, the "
+              "UTF-8 codec, numpy casting and numpy's / h5py's own indexing of a plain array are assumptions, exercised but not "
+              "proved. Out of range ints raise ValueError (a list raises IndexError); a never-written memory array answers "
+              "every item, ints included, with an empty array; items other than int / numpy integer / slice are not modelled.")
 TECHNIQUE = ("Lean 4 theorems (invariant over bytes, entries, parts) about an executable model of the field arrays + "
              "differential correspondence with the real classes on exhaustive small partitions x chunk sizes x backends and "
              "seeded random cases, including reopen")
